@@ -187,13 +187,15 @@ def args(annotation: tp.Any, *, evaluate: bool = False) -> tp.Tuple[tp.Any, ...]
     if not a:
         a = getattr(annotation, "__args__", a)
 
+    # (First: the bound of a type variable may itself be a reference.)
+    a = (*_normalize_typevars(*a),)
     if evaluate:
         # (A builtin generic keeps string arguments as they are; in a `Literal` they are values.)
         if tp.get_origin(annotation) is not tp.Literal:
             a = (*(refs.forwardref(r) if isinstance(r, str) else r for r in a),)
         a = (*(refs.evaluate(r) for r in a),)
 
-    return (*_normalize_typevars(*a),)
+    return a
 
 
 def _normalize_typevars(*args: tp.Any) -> tp.Iterable:
